@@ -441,6 +441,65 @@ def r09_3(rep, M, rid):
         rep.violation(rid, "get_dimensionality: non-periodic branch", "a connected non-periodic system does not get 0", M.where(FQ))
 
 
+def r09_6(rep, M, rid):
+    """the cell of every minimum-image search is the cell of the very object whose (wrapped) positions are searched, unmodified: the
+    atoms were wrapped in that basis, and the search is only exact for atoms inside the cell it is given"""
+    fn = M.func(FQ)
+    fl = Flow(fn)
+    dparams = M.params(DISP)
+    calls = [c for c in ast.walk(fn) if isinstance(c, ast.Call) and DISP in M.callees_of_call(FQ, c)]
+    if not calls:
+        raise AnalysisError("get_dimensionality: get_displacement_tensor not called")
+
+    def source(e, at):
+        """(name of the Atoms object, getter, modifiers) of a value defined as <obj>.get_x()<modifiers>"""
+        mods = []
+        for _ in range(6):
+            if isinstance(e, ast.Name):
+                vals = [v for d in fl.rd[at].get(e.id, ()) if d != fl.cfg.entry for v in fl.def_value(d, e.id) if v[0] == "expr"]
+                ds = [d for d in fl.rd[at].get(e.id, ()) if d != fl.cfg.entry]
+                if len(vals) != 1:
+                    return None
+                e, at = vals[0][1], ds[0]
+                continue
+            if isinstance(e, ast.Call) and isinstance(e.func, ast.Attribute) and e.func.attr in ("get_cell", "get_positions") and isinstance(e.func.value, ast.Name):
+                return e.func.value.id, e.func.attr, mods, at
+            if isinstance(e, ast.Call) and isinstance(e.func, ast.Attribute):
+                mods.append("." + e.func.attr + "()")
+                e = e.func.value
+                continue
+            if isinstance(e, ast.Call) and (M.ext_name(FQ, e.func) or "") in ("numpy.array", "numpy.asarray") and e.args:
+                e = e.args[0]
+                continue
+            if isinstance(e, (ast.BinOp, ast.Subscript, ast.UnaryOp)):
+                mods.append(norm(e)[:30])
+                return None if not mods else ("?", "?", mods, at)
+            return None
+        return None
+    for i, c in enumerate(calls):
+        b = M.bind_args(DISP, c)
+        at = fl.node_of(c)
+        pc, cc = source(b.get("positions"), at), source(b.get("cell"), at)
+        construct = f"get_dimensionality: cell of get_displacement_tensor #{i + 1}"
+        if pc is None or cc is None:
+            raise AnalysisError(f"{construct}: sources of positions / cell not resolved")
+
+        def same_obj(a, a_at, b2, b_at):
+            ra = {a} | {x.id for d in fl.rd[a_at].get(a, ()) if d != fl.cfg.entry for v in fl.def_value(d, a) if v[0] == "expr" and isinstance(v[1], ast.Name) for x in [v[1]]}
+            rb = {b2} | {x.id for d in fl.rd[b_at].get(b2, ()) if d != fl.cfg.entry for v in fl.def_value(d, b2) if v[0] == "expr" and isinstance(v[1], ast.Name) for x in [v[1]]}
+            return bool(ra & rb)
+        if cc[2]:
+            rep.violation(rid, construct, f"the cell is `{cc[0]}.get_cell()` changed by {cc[2]}: the atoms were wrapped in the basis of the full cell, with another cell "
+                          "(e.g. non-periodic vectors dropped, reduced basis) they are no longer inside the cell the search is given and minimum images of bonded pairs are missed",
+                          M.where(FQ, c))
+        elif cc[1] != "get_cell" or pc[1] != "get_positions":
+            rep.violation(rid, construct, f"positions come from `{pc[0]}.{pc[1]}`, the cell from `{cc[0]}.{cc[1]}`", M.where(FQ, c))
+        elif not same_obj(pc[0], pc[3], cc[0], cc[3]):
+            rep.violation(rid, construct, f"positions of `{pc[0]}` are searched in the cell of `{cc[0]}`", M.where(FQ, c))
+        else:
+            rep.ok(rid, construct + f" = `{cc[0]}.get_cell()` of the object whose positions are searched")
+
+
 def run(rep, ctx):
     M = ctx.model
     rep.explanation = ("typestate of the position arrays reaching the minimum-image routine, symbolic linear forms for the "
@@ -466,6 +525,10 @@ def run(rep, ctx):
     with rep.guard("R09.5"):
         from . import shared as _sh
         _sh.radii(rep, ctx.model, "R09.5")
+    rep.rule("R09.6", "each minimum-image search uses the unmodified cell of the object whose wrapped positions it searches")
+    with rep.guard("R09.6"):
+        r09_6(rep, M, "R09.6")
+    rep.floor("R09.6", 2)
     rep.floor("R09.1", 2)
     rep.floor("R09.2", 4)
     rep.floor("R09.3", 9)
